@@ -210,27 +210,39 @@ func checkProperty(net *a.Network, blocks []Block, kinds map[string]int, maxDept
 	types := map[*a.SignalType]bool{}
 	units := map[*a.SignalUnit]bool{}
 	enums := map[*a.SignalEnum]bool{}
-	var collect func(sigs []a.Signal)
-	collect = func(sigs []a.Signal) {
+	// referenced definitions are collected through the getters only (Unit() != nil), never
+	// from the rendered text; minDepth = shallowest multiplexing depth of a reference
+	minDepth := map[any]int{}
+	note := func(k any, depth int) {
+		if d, ok := minDepth[k]; !ok || depth < d {
+			minDepth[k] = depth
+		}
+	}
+	var collectAt func(sigs []a.Signal, depth int)
+	collectAt = func(sigs []a.Signal, depth int) {
 		for _, s := range sigs {
 			switch s.Kind() {
 			case a.SignalKindStandard:
 				ss, _ := s.ToStandard()
 				types[ss.Type()] = true
+				note(ss.Type(), depth)
 				if ss.Unit() != nil {
 					units[ss.Unit()] = true
+					note(ss.Unit(), depth)
 				}
 			case a.SignalKindEnum:
 				es, _ := s.ToEnum()
 				enums[es.Enum()] = true
+				note(es.Enum(), depth)
 			case a.SignalKindMultiplexer:
 				mx, _ := s.ToMultiplexer()
 				for _, g := range mx.GetSignalGroups() {
-					collect(g)
+					collectAt(g, depth+1)
 				}
 			}
 		}
 	}
+	collect := func(sigs []a.Signal) { collectAt(sigs, 0) }
 	for bi, bus := range net.Buses() {
 		sec := secs[bi]
 		if sec.title != bus.Name() {
@@ -397,6 +409,19 @@ func checkProperty(net *a.Network, blocks []Block, kinds map[string]int, maxDept
 			if !multisetEq(want, got) {
 				add("appendix-enums", "enums listed %q, referenced %q", got, want)
 			}
+		}
+	}
+	for _, d := range minDepth {
+		if d >= 2 {
+			kinds["definition-referenced-only-from-depth>=2"]++
+		}
+	}
+	for u := range units {
+		if u.Symbol() == "" {
+			kinds["referenced-unit-without-symbol"]++
+		}
+		if u.Name() == "" {
+			kinds["referenced-unit-without-name"]++
 		}
 	}
 	kinds[fmt.Sprintf("types-%d", min(len(types), 4))]++
